@@ -111,7 +111,17 @@ def known_tags(feat, prop: str | None = None) -> list:
 _HOLDS = {"i": {"i", "b"}, "b": {"b"}, "f": {"i", "b", "f"}, "s": {"s"}, "list": {"list"}}
 
 
-def retyped(ty: dict, ty0: dict | None = None) -> list:
+def signature_names(prog: dict) -> set:
+    """"<helper>.<parameter>" / "<helper>.return": what flows through them differs per call site by design (the transpiler emits
+    one variant of the helper per call signature), so several types there are not the `name-retyped` finding."""
+    out = set()
+    for f, d in prog.get("defs", {}).items():
+        out.add(f"{f}.return")
+        out.update(f"{f}.{q}" for q in d["params"])
+    return out
+
+
+def retyped(ty: dict, ty0: dict | None = None, skip=frozenset()) -> list:
     """Names that later held a value their FIRST type cannot hold (spec-side predicate; the first assignment fixes the
     C++ type on the pinned tree: int then float is the known finding, float then int is harmless)."""
     out = []
@@ -119,7 +129,7 @@ def retyped(ty: dict, ty0: dict | None = None) -> list:
         return out
     for n, ts in ty.items():
         s = set(ts) - {"none"}
-        if len(s) <= 1:
+        if len(s) <= 1 or n in skip:
             continue
         first = (ty0 or {}).get(n) if isinstance(ty0, dict) else None
         if first in _HOLDS and s <= _HOLDS[first]:
@@ -180,7 +190,7 @@ class Strata:
                 self.ill += 1
                 continue
             tags = known_tags(v["feat"], self.prop) + syntactic_tags(p)
-            if retyped(v["ty"], v.get("ty0")):
+            if retyped(v["ty"], v.get("ty0"), signature_names(p)):
                 tags.append("name-retyped")
             if extra_exclude:
                 tags = tags + list(extra_exclude(v))
